@@ -1,9 +1,9 @@
 """Which rules exist, which properties are claimed, their floors and evidence texts."""
 
-RULE_MODULES = ['descent', 'null', 'live', 'gate', 'immobile', 'reset', 'pool', 'stale', 'layer', 'twin', 'listsearch', 'steps', 'segflow', 'unchecked', 'panicsite', 'links', 'alloc', 'entity', 'inorder', 'progress', 'sizing', 'bypass']   # alloc after pool and links: it reads their verdicts
+RULE_MODULES = ['descent', 'null', 'live', 'gate', 'immobile', 'reset', 'pool', 'stale', 'layer', 'twin', 'listsearch', 'steps', 'segflow', 'unchecked', 'panicsite', 'links', 'alloc', 'entity', 'inorder', 'progress', 'sizing', 'bypass', 'deficit']   # alloc after pool and links: it reads their verdicts
 
 # rule ids produced by modules that host more than one rule (used to attribute an internal error of a module)
-MODULE_RULES = {'steps': ['ENDSENT', 'NEIGHBOUR', 'HANDLE'], 'links': ['LINKPAIR', 'NILSTATE', 'COLOR', 'CLIMB', 'FRESH', 'DROP', 'ROOTTEST'],
+MODULE_RULES = {'steps': ['ENDSENT', 'NEIGHBOUR', 'HANDLE'], 'links': ['LINKPAIR', 'NILSTATE', 'COLOR', 'CLIMB', 'FRESH', 'DROP', 'ROOTTEST'], 'deficit': ['DEFICIT'], 'bypass': ['BYPASS'],
                 'pool': ['POOL', 'PROVENANCE']}
 
 # rules whose instance set legitimately differs between debug and release-like MIR
@@ -136,9 +136,9 @@ purge loop: the definite-hang pattern) [PROGRESS]; the segment tree allocates on
 mask builders compute for the stored domain maximum - allocation and addressing evaluate, as linear forms over the
 layout's fields with the private helpers inlined, to the same mapping of the same endpoint [SIZING]. Not decided:
 termination in general (the repair recursion, loops whose conditions do change but need not converge), the arithmetic of
-the seg layout itself (that the last bucket is the highest position a mask names, that it stays below 63: C14 / C15).""",
+the seg layout itself (that the last bucket is the highest position a mask names, that it stays below 63: C14 / C15). The removal repair hands a black deficit up on every path on which it was not absorbed [DEFICIT], and the (node, parent) cursors of an upward loop stay a child / parent pair in both halves of the step [CLIMB]: the shape invariants the reasoned exceptions lean on survive repairs that climb more than one level.""",
      ["C02 for the reasoned exceptions (inner child of a rotated node, sibling of a double-black node, non-root has a parent); its structural part is re-checked here through TWIN"],
-     {'NULL': 190, 'PROVENANCE': 150, 'STALE': 20, 'UNCHECKED': 14, 'PANICSITE': 60, 'TWIN': 70, 'PROGRESS': 30, 'SIZING': 1})
+     {'NULL': 190, 'PROVENANCE': 150, 'STALE': 20, 'UNCHECKED': 14, 'PANICSITE': 60, 'TWIN': 70, 'PROGRESS': 30, 'SIZING': 1, 'DEFICIT': 3})
 
 prop('C13', """
 Static analysis (MIR/SSA). Decided clauses so far for the expiring-key list: the purge keeps exactly
@@ -256,6 +256,6 @@ EMPTY_REF and the parent link written on every path of the allocating function, 
 filler node has EMPTY_REF there and every release of a slot is preceded by a reset of that link [FRESH]; no branch tests the root's own parent link, which the link discipline keeps
 at EMPTY_REF (a guard mistyped that way disables what it guards, identically in all copies) [ROOTTEST]. NOT decided: that the consistent, symmetric algorithm restores
 the colour invariants (needs a proof or exploration of tree shapes: another technique family); a change made
-identically in all copies and both mirrors is invisible to TWIN; the height bound is a consequence and assumed.""",
+identically in all copies and both mirrors is invisible to TWIN; the height bound is a consequence and assumed. In the removal repair, after the examined node's sibling is painted red, every path either paints a red parent black or continues the repair with the parent as the examined node (recursive call or next round of the loop): the missing black is made up for or handed up, never dropped [DEFICIT].""",
      ["the shared algorithm is the textbook red-black repair (not re-verified)"],
-     {'TWIN': 50, 'LINKPAIR': 30, 'NILSTATE': 3, 'COLOR': 3, 'POOL': 3, 'CLIMB': 2, 'FRESH': 6, 'ROOTTEST': 6})
+     {'TWIN': 50, 'LINKPAIR': 30, 'NILSTATE': 3, 'COLOR': 3, 'POOL': 3, 'CLIMB': 2, 'FRESH': 6, 'ROOTTEST': 6, 'DEFICIT': 3})
